@@ -14,7 +14,7 @@ open LoomVerif
 #print axioms Chan.branch_spelled_out
 #print axioms Chan.recv_blocks_iff_empty
 #print axioms Chan.send_wakes
-#print axioms Chan.send_wake_clears_unpark_token
+#print axioms Chan.send_wake_keeps_unpark_token
 #print axioms Chan.recv_blocks_others
 #print axioms Chan.try_recv_exact
 #print axioms Chan.Run.acq
